@@ -795,7 +795,7 @@ def check_scales(ctx, drv, case):
         return True
     rel = [(x - grid[0]) / (grid[-1] - grid[0]) for x in grid]
     ok = True
-    for _ in range(2):
+    for _ in range(1 if r.random() < 0.5 else 2):
         configs = [[g, sn, cn, False] for g in ("GROUPED", "GROUPED_OPTIMIZED") for sn, _ in SLICES for cn, _ in CONTAINERS]
         configs.append(["UNIT", r.choice(SLICES)[0], r.choice(CONTAINERS)[0], False])
         configs.append([r.choice(GROUPINGS)[0], r.choice(SLICES)[0], r.choice(CONTAINERS)[0], True])
@@ -878,7 +878,12 @@ def run(ctx):
     ctx.rule = ("random dyadic refinement trees (repeated bisection, 2-33 points, uniform / deep / breadth-first refinement, 9 domains), "
                 "complete dyadic grids of depth 0-5, full point trees (0 or 2 children) and a malformed stream (perturbed levels, swapped / "
                 "duplicated / moved points, non-zero boundary level, random levels); every grid goes through the 24 configurations "
-                "grouping x slice x container x force_balanced, GridBinaryTree (init, force_full, increment) and BalancedExtrapolationGrid; "
+                "grouping x slice x container x force_balanced, GridBinaryTree (init, force_full, increment), BalancedExtrapolationGrid, "
+                "the Grid.py wrappers (1-D cache re-keying; one GlobalRombergGrid object over dim 2-3 non-cubic boxes sharing a tree across "
+                "dimensions and over successive set_grid calls), object histories (one ExtrapolationGrid / BalancedExtrapolationGrid object "
+                "through 2-5 set_grid calls, integrate(const / linear / value table) and get_weights after each) and an interval-scale stream "
+                "(the tree placed on [a, a + 2^-e], e in 3..40, a in {0, 1, -2}, all grouped configurations, weights and clauses relative to "
+                "the interval length); "
                 "a case is one (grid, levels) pair, distinct by its canonical fractions, non-trivial if it has at least 3 points")
     ctx.assumptions = ["floating-point rounding is not modelled: dyadic grid points are exact in binary floating point, weights are compared at 1e-12, property clauses at 1e-9",
                        "the experimental LAGRANGE_* containers and ROMBERG_DEFAULT_CONST_SUBTRACTION slices are out of scope of C11 and not exercised"]
